@@ -708,22 +708,28 @@ def c17(tier, seed):
     for name, text in inputs.items():
         for check in (False, True):
             for respect in (False, True):
-                for path_kind in ("none", "plain", "ignored"):
+                for path_kind in ("none", "plain", "ignored", "ignored-new-nested", "ignored-existing-nested", "ignored-new-abs", "plain-new-nested", "outside-cwd"):
                     for fmtopt in ([], ["--quote-style", "ForceSingle"], ["--indent-type", "Spaces", "--indent-width", "3"], ["--line-endings", "Windows"], ["--verify"]):
                         if name == "big" and (check or fmtopt or respect):
                             continue
                         if rng.random() < 0.5 and not (name in ("valid", "invalid", "blank-lines")):
                             continue
-                        files = {"other.lua": UNFORMATTED, ".styluaignore": "ignored.lua\n", "ignored.lua": UNFORMATTED}
+                        if path_kind not in ("none", "plain", "ignored") and (fmtopt or name not in ("valid", "crlf", "no-trailing-newline", "invalid")):
+                            continue
+                        files = {"proj/other.lua": UNFORMATTED, "proj/.styluaignore": "ignored.lua\nbuild/\nnew-ignored.lua\n", "proj/ignored.lua": UNFORMATTED,
+                                 "proj/build/old.lua": UNFORMATTED, "proj/src/keep.lua": UNFORMATTED, "elsewhere/x.lua": UNFORMATTED}
                         with Tree(files) as t:
                             before = t.snapshot()
+                            cwd = os.path.join(t.root, "proj")
                             args = (["--check"] if check else []) + (["--respect-ignores"] if respect else []) + fmtopt
-                            if path_kind == "plain":
-                                args += ["--stdin-filepath", "other.lua"]
-                            elif path_kind == "ignored":
-                                args += ["--stdin-filepath", "ignored.lua"]
+                            # the path need not exist (an unsaved editor buffer): what counts is what it is called
+                            sp = {"plain": "other.lua", "ignored": "ignored.lua", "ignored-new-nested": "build/new.lua", "ignored-existing-nested": "build/old.lua",
+                                  "ignored-new-abs": os.path.join(cwd, "new-ignored.lua"), "plain-new-nested": "src/new.lua",
+                                  "outside-cwd": os.path.join(t.root, "elsewhere", "x.lua")}.get(path_kind)
+                            if sp:
+                                args += ["--stdin-filepath", sp]
                             args.append("-")
-                            rc, out, err = run(args, t.root, stdin=text.encode(), timeout=300)
+                            rc, out, err = run(args, cwd, stdin=text.encode(), timeout=300)
                             after = t.snapshot()
                             runs += 1
                             cfgstr = "syntax=All"
@@ -735,8 +741,8 @@ def c17(tier, seed):
                                 cfgstr += " eol=Windows"
                             lib = _lib_format(text, cfgstr)
                             parses = not lib.startswith("<parse error>")
-                            skipped = respect and path_kind == "ignored"
-                            detail = {"argv": args, "stdin": text if len(text) < 300 else "<%d bytes>" % len(text), "exit": rc, "stdout": out.decode("utf-8", "replace")[:300], "stderr": err.decode("utf-8", "replace")[:300]}
+                            skipped = respect and path_kind.startswith("ignored")
+                            detail = {"argv": [a.replace(t.root, "<root>") for a in args], "stdin_filepath_kind": path_kind, "stdin": text if len(text) < 300 else "<%d bytes>" % len(text), "exit": rc, "stdout": out.decode("utf-8", "replace")[:300], "stderr": err.decode("utf-8", "replace")[:300]}
                             if {k_: v_[:3] for k_, v_ in before.items()} != {k_: v_[:3] for k_, v_ in after.items()}:
                                 V.append(v("C17", "stdin-mode-wrote-files", detail))
                             same = parses and lib == text
@@ -755,7 +761,7 @@ def c17(tier, seed):
                                 else:
                                     obs_kind = "other"
                             if name != "big":
-                                Q.append(q("stdin %d %d %d %d %d" % (check, respect, path_kind == "ignored", parses, same), "%s %d" % (obs_kind, rc)))
+                                Q.append(q("stdin %d %d %d %d %d" % (check, respect, path_kind.startswith("ignored"), parses, same), "%s %d" % (obs_kind, rc)))
                             # ---- ring 3
                             if not check:
                                 if skipped:
